@@ -272,7 +272,37 @@ def impl(case):
         signal.setitimer(signal.ITIMER_VIRTUAL, 0)
         signal.signal(signal.SIGVTALRM, old)
     final = [len(q.working), [len(d) for d in q.curr_level], len(q.next_level)]
-    return {"out": [events, list(q.queue_sizes), final], "levels": levels, "ign": ign, "bad": bad}
+    sizes = list(q.queue_sizes)
+    # ---- DRAIN (outside the compared output): after the history, call next(queue) until StopIteration, at most
+    # cap = |added labels| * |all work of a label| + 2 times - every packet ever handed out belongs to an added label
+    # and no label receives more than its work, so a queue that needs more calls fabricates or re-schedules work
+    per = (1 if case["inf"] else 0) + len(case["ini"]) + sum(len(e) for e in case["exp"])
+    cap = len({o[1] for o in case["ops"] if o[0] == ADD}) * per + 2
+    drain, dlevels, dign = [], [], []
+    n0 = len(ign)
+    signal.signal(signal.SIGVTALRM, _alarm)
+    signal.setitimer(signal.ITIMER_VIRTUAL, 5.0)
+    try:
+        for _ in range(cap):
+            try:
+                ev = packet(next(q))
+            except StopIteration:
+                ev = [2]
+                ign.append(False)
+            except AssertionError:
+                ev = [5]
+                ign.append(False)
+            drain.append(ev)
+            dlevels.append(q.levels_completed)
+            if ev[0] != 1:
+                break
+    finally:
+        signal.setitimer(signal.ITIMER_VIRTUAL, 0)
+        signal.signal(signal.SIGVTALRM, old)
+    dign = ign[n0:]
+    del ign[n0:]
+    return {"out": [events, sizes, final], "levels": levels, "ign": ign, "bad": bad,
+            "drain": drain, "drain_levels": dlevels, "drain_ign": dign, "drain_sizes": list(q.queue_sizes), "drain_cap": cap}
 
 
 # ----------------------------------------------------------------- oracle
@@ -297,6 +327,25 @@ def oracle(case, res):
     ops = case["ops"]
     if len(events) != len(ops):
         return "wrong number of events"
+    why = _trace_check(case, ops, events, levels, ign, sizes)
+    if why or "drain" not in res:
+        return why
+    # ---- the drain: the same trace predicates on the history extended by the NEXT calls that drain the queue
+    # (so "exhausted => every added, not stopped label received all its work" is decided on EVERY history), plus the bound
+    d = res["drain"]
+    why = _trace_check(case, ops + [[NEXT, 0]] * len(d), events + d, levels + res["drain_levels"], ign + res["drain_ign"],
+                       res["drain_sizes"])
+    if why:
+        return "while draining the queue after the history: " + why
+    if not d or d[-1] != [2]:
+        return ("the queue is not drained after %d consecutive next calls = |added labels| * |work of a label| + 2 "
+                "(drain bound)" % res["drain_cap"])
+    return None
+
+
+def _trace_check(case, ops, events, levels, ign, sizes):
+    per = (1 if case["inf"] else 0) + len(case["ini"]) + sum(len(e) for e in case["exp"])
+    run_next = 0
     stopped, added, notinf = set(), set(), set()
     handed = {}           # label -> list of work items handed out, in order
     notinf_before_first = {}
@@ -320,10 +369,17 @@ def oracle(case, res):
         elif c == DOLEVEL:
             gstate = "fresh"
         if c < 4 or c == DOLEVEL:
+            run_next = 0
             if lev != lev_before:
                 return "op %d: levels_completed changed by a non-iteration operation" % i
             continue
         # ---- next(queue) / next(generator)
+        # drain bound: the k-th of a run of consecutive next(queue) calls with k > |added| * |work of a label|
+        # must be StopIteration
+        run_next = run_next + 1 if c == NEXT else 0
+        if c == NEXT and run_next > len(added) * per and ev != [2]:
+            return ("op %d: the %d-th consecutive next(queue) answers %r, but only %d labels were added with %d work "
+                    "packets each (drain bound)" % (i, run_next, ev, len(added), per))
         if c == LEVELNEXT:
             if gstate == "done":
                 if ev != [3]:
@@ -499,4 +555,9 @@ def extra_checks(ctx):
 # translator tie (DESIGN.md 10.9): what the regenerated definitions add to the level
 LEVEL_NOTE += (
     ' can_do_inferral, can_do_initial and the sort expression of _change_level are RE-TRANSLATED from class_queue.py on every run and the model is proved to compute exactly those (C16_can_do_inferral_is_source, C16_can_do_initial_is_source, C16_level_order_is_source; Queue/GenBridge.v); each regenerated definition is evaluated against the source on random arguments every run (harness/gen_selftest.py).'
+)
+
+# strengthening of the oracles (CLAUSES.md G.1 item 10)
+RULE += (
+    ' After every history the real queue is DRAINED (next until StopIteration, outside the compared output): the trace predicates are decided again on the history extended by the drain (so exhaustion-completeness is decided on every history), the drain must end within |added labels| * |work of a label| + 2 calls, and inside a history the k-th consecutive next(queue) with k > |added| * |work of a label| must be StopIteration (drain bound).'
 )
